@@ -77,7 +77,7 @@ impl RequestHandler<PrepareRenameRequest> for PrepareRenameRequestHandler {
                 if !codegen
                     .analysis()
                     .find(
-                        file_path.to_str().unwrap(),
+                        file_path.to_string_lossy().to_string(),
                         LineCol {
                             line: source_line,
                             column: params.position.character as usize,
